@@ -47,11 +47,11 @@ def header_view_record(fb, cls):
         return None
     rt = g.raw.get("rett") or {}
     rec = rt.get("prec")
-    body = g.body.get("body", [])
     ok = False
-    if len(body) == 1 and body[0].get("k") == "return":
-        e = body[0].get("e")
-        if e and e.get("k") == "cast" and e.get("written") == "reinterpret":
+    from .facts import single_return_expr
+    e = single_return_expr(g)  # (named intermediate steps — `void* raw = data(); return static_cast<Header*>(raw);` — are one expression)
+    if e is not None:
+        if e.get("k") == "cast" and rec:
             inner = strip_all_casts(e["e"])
             if inner.get("k") == "call" and (inner.get("callee") or {}).get("nm") != "data":
                 from .facts import inline_accessor
@@ -139,7 +139,10 @@ def check_field(out, interp, cls, row, getter, setter, nbytes, pos, fb):
             ok = list(ret.bits) == exp
             det = "get%s returns wire bits %d:%d of the %d-byte big-endian field at offset %d" % (stem, hi, lo, row["bytes"], row["offset"]) \
                 if "offset" in row else "get%s returns bits %d:%d" % (stem, hi, lo)
-            if not ok:
+            if ok and kind != "bool" and ret.w < w:
+                ok = False
+                det = "get%s returns only %d of the field's %d bits: wire values that differ in the upper bits read back the same" % (stem, ret.w, w)
+            elif not ok:
                 j = next(i for i in range(min(len(exp), ret.w)) if ret.bits[i] != exp[i]) if ret.w == len(exp) else 0
                 det = "get%s: result bit %d is %s, layout says %s" % (stem, j, term_str(ret.bits[j]) if j < ret.w else "?",
                                                                       term_str(exp[j]) if j < len(exp) else "?")
@@ -158,6 +161,16 @@ def check_field(out, interp, cls, row, getter, setter, nbytes, pos, fb):
             missing = set(vals) - set(row["values"])
             if missing:
                 raise Broken("enum %s has enumerators without a spec row: %s" % (row["enum"], sorted(missing)))
+            # every wire bit of the field takes part in the result: otherwise wire values outside the enumeration that differ from an
+            # enumerator only in the dropped bits read back as that enumerator (an unsupported kind is taken for a supported one)
+            sup = set()
+            for b in ret.bits:
+                sup |= g4.atoms(b)
+            dropped = [j for j in range(w) if S(M[j]) not in sup]
+            out.append(Ob("position", cls, "%s::get%s[all-bits]" % (cls, stem), gloc, not dropped,
+                          "all %d wire bits of the field reach the result" % w if not dropped else
+                          "get%s ignores wire bit(s) %s of the %d-bit field: %d wire values read back as each enumerator" %
+                          (stem, _fmt_bits(dropped) if len(dropped) < 9 else "%d..%d" % (dropped[0], dropped[-1]), w, 1 << len(dropped))))
 
     if setter is None or row.get("getter_only"):
         return
@@ -444,6 +457,12 @@ def analyse(fb, spec):
                                           "variable-length data starts at payload byte %d = sizeof(%s); layout says %d" % (const_value(b), rec, off)))
             if found:
                 break
+        if not found and g.name.endswith("::getData"):
+            # not spelled `data() + sizeof(Header)` (e.g. `header + 1`): read the offset off the pointer the getter returns
+            from .views import pointer_rows
+            for _, v, form in pointer_rows(fb, g):
+                if form is not None and sorted(k2 for k2 in form if k2 != 1 and form[k2]) == ["D"] and form["D"] == 1:
+                    found = True
         if not found:
             raise Broken("%s: data accessor does not use payloadData.data() + sizeof(Header)" % g.name)
         # the value handed out: every non-null pointer the public data getter returns is data() + that offset, as a linear form
